@@ -13,9 +13,9 @@ t_with=$(cargo test --workspace --offline 2>&1 | grep -E "^test result" | awk '{
 demo_cmd="cargo run --offline -q"
 [ -f $wt/demo/CMD ] && demo_cmd=$(cat $wt/demo/CMD)
 (cd demo && timeout 600 $demo_cmd >/tmp/$id.with.log 2>&1); rc_with=$?
-git stash -q
+git apply -R $out/patch.diff
 (cd demo && timeout 600 $demo_cmd >/tmp/$id.without.log 2>&1); rc_without=$?
-git stash pop -q
+git apply $out/patch.diff
 echo "seed=$id tests_with_change: $t_with; demo rc with=$rc_with without=$rc_without"
 tail -3 /tmp/$id.with.log | sed 's/^/   with: /'
 tail -2 /tmp/$id.without.log | sed 's/^/   without: /'
